@@ -568,6 +568,29 @@ func (t *ZeroAllocTokenizer) TokenizeHtmlPreserving() ([]Token, error) {
 	return t.result, nil
 }
 
+// lowerASCII lowercases the ASCII letters of s and leaves every other byte alone. Unlike
+// strings.ToLower the result has the same length as s, so a position found in it is a
+// position in s (the lower-case form of a non-ASCII letter can be longer than the letter).
+func lowerASCII(s string) string {
+	hasUpper := false
+	for i := 0; i < len(s); i++ {
+		if c := s[i]; c >= 'A' && c <= 'Z' {
+			hasUpper = true
+			break
+		}
+	}
+	if !hasUpper {
+		return s
+	}
+	b := []byte(s)
+	for i, c := range b {
+		if c >= 'A' && c <= 'Z' {
+			b[i] = c + ('a' - 'A')
+		}
+	}
+	return string(b)
+}
+
 // processBlockTag handles specialized block tag tokenization
 func (t *ZeroAllocTokenizer) processBlockTag(content string) {
 	// Extract the tag name
@@ -601,7 +624,7 @@ func (t *ZeroAllocTokenizer) processBlockTag(content string) {
 
 	case "for":
 		// Process for loop with iterator(s) and collection
-		inPos := strings.Index(strings.ToLower(blockContent), " in ")
+		inPos := strings.Index(lowerASCII(blockContent), " in ")
 		if inPos != -1 {
 			iterators := strings.TrimSpace(blockContent[:inPos])
 			collection := strings.TrimSpace(blockContent[inPos+4:])
@@ -695,7 +718,7 @@ func (t *ZeroAllocTokenizer) processBlockTag(content string) {
 
 	case "include":
 		// Handle include with template path and optional context
-		withPos := strings.Index(strings.ToLower(blockContent), " with ")
+		withPos := strings.Index(lowerASCII(blockContent), " with ")
 		if withPos != -1 {
 			templatePath := strings.TrimSpace(blockContent[:withPos])
 			contextExpr := strings.TrimSpace(blockContent[withPos+6:])
@@ -729,7 +752,7 @@ func (t *ZeroAllocTokenizer) processBlockTag(content string) {
 	case "from":
 		// Handle from tag which has a special format:
 		// {% from "template.twig" import macro1, macro2 as alias %}
-		importPos := strings.Index(strings.ToLower(blockContent), " import ")
+		importPos := strings.Index(lowerASCII(blockContent), " import ")
 		if importPos != -1 {
 			// Extract template path and macros list
 			templatePath := strings.TrimSpace(blockContent[:importPos])
@@ -747,7 +770,7 @@ func (t *ZeroAllocTokenizer) processBlockTag(content string) {
 				macro = strings.TrimSpace(macro)
 
 				// Check for "as" alias
-				asPos := strings.Index(strings.ToLower(macro), " as ")
+				asPos := strings.Index(lowerASCII(macro), " as ")
 				if asPos != -1 {
 					// Extract macro name and alias
 					macroName := strings.TrimSpace(macro[:asPos])
@@ -782,7 +805,7 @@ func (t *ZeroAllocTokenizer) processBlockTag(content string) {
 	case "import":
 		// Handle import tag which allows importing entire templates
 		// {% import "template.twig" as alias %}
-		asPos := strings.Index(strings.ToLower(blockContent), " as ")
+		asPos := strings.Index(lowerASCII(blockContent), " as ")
 		if asPos != -1 {
 			// Extract template path and alias
 			templatePath := strings.TrimSpace(blockContent[:asPos])
